@@ -132,7 +132,7 @@ def rule_pseudo_header(tree: Tree) -> RuleResult:
             raise AnalysisError(f"{fn}: IPv4 / IPv6 pseudo-header arms not found")
         want = {
             "v4": [("attr", "ip_src"), ("attr", "ip_dst"), ("const", b"\x00"), ("int", "ip.p", 1, "big"), ("len", l4, 2, "big")],
-            "v6": [("attr", "ip_src"), ("attr", "ip_dst"), ("len", l4, 4, "big"), ("const", b"\x00\x00\x00"), ("int", "ip.nxt", 1, "big")],
+            "v6": [("attr", "ip_src"), ("attr", "ip_dst"), ("len", l4, 4, "big"), ("const", b"\x00\x00\x00"), ("int", "ip.p", 1, "big")],  # upper-layer protocol (dpkt: IP6.p), not IP6.nxt = type of the first extension header
         }
         for v in ("v4", "v6"):
             r.instances += 1
@@ -324,6 +324,20 @@ def rule_udp_zero(tree: Tree) -> RuleResult:
     r.ob(ok, Finding("UDPZ", "checksums:calculate_checksum_udp:zero-is-ones",
                      "calculate_checksum_udp compares the checksum field with the computed value without mapping a computed 0x0000 to 0xffff: a correctly "
                      "checksummed datagram whose checksum is transmitted as 0xffff is discarded under -c", m.line(udp.node)))
+    # an IPv4 datagram sent without checksum (field 0x0000) is accepted — and only that: the early accept is guarded by `not ipv6` and `field == 0`
+    r.instances += 1
+    cfgu = cfg_of(udp.node)
+    rets_true = [n for n in cfgu.nodes if n.kind == "stmt" and isinstance(n.ast, ast.Return) and try_fold(n.ast.value) is True]
+    ok = len(rets_true) == 1
+    if ok:
+        facts = [(src(e), t) for e, t in cfgu.facts_at(rets_true[0].id)]
+        fld = {dotted(a.targets[0]) for a in body_walk(udp.node) if isinstance(a, ast.Assign) and "udp.sum" in src(a.value)} | {"packet.udp.sum"}
+        v4 = any(s == "packet.ipv6_packet" and not t for s, t in facts)
+        zero = any(t and any(s == f"{f} == {z}" for f in fld for z in ("b'\\x00\\x00'", "0")) for s, t in facts)
+        ok = v4 and zero and len(facts) == 2
+    r.ob(ok, Finding("UDPZ", "checksums:calculate_checksum_udp:no-checksum-ipv4",
+                     "an IPv4 UDP datagram whose checksum field is 0x0000 was sent without checksum (RFC 768) and has no wrong checksum: calculate_checksum_udp must accept it — "
+                     "exactly under `not ipv6 and field == 0` (for IPv6 a zero field stays an error)", m.line(udp.node)))
     r.instances += 1
     bad = [f.qualname for f in (tcp, helper) if zero_mapping(f.node)]
     r.ob(not bad, Finding("UDPZ", "checksums:tcp-has-no-zero-rule", f"{bad}: TCP has no 'zero is sent as 0xffff' rule; a TCP segment whose correct checksum is 0x0000 would be rejected", m.relpath))
